@@ -204,6 +204,10 @@ func (e *robustEnv) template(name string) interface{} {
 		return jsonPatch(map[string]interface{}{"op": "add", "path": "/other/b", "value": map[string]interface{}{"x": 1}},
 			map[string]interface{}{"op": "copy", "from": "/other", "path": "/copy"},
 			map[string]interface{}{"op": "test", "path": "/other/a", "value": 1})
+	case "patch_jsonpatch_protected":
+		return jsonPatch(map[string]interface{}{"op": "replace", "path": "/service/0/serviceEndpoint", "value": "https://replaced.example/"},
+			map[string]interface{}{"op": "replace", "path": "/publicKey/0/purposes", "value": []interface{}{"keyAgreement"}},
+			map[string]interface{}{"op": "replace", "path": "/other/a", "value": map[string]interface{}{"x": 1}})
 	case "patch_jsonpatch_array":
 		return jsonPatch(map[string]interface{}{"op": "replace", "path": "/other/arr/0", "value": 5},
 			map[string]interface{}{"op": "move", "from": "/other/arr/1", "path": "/other/arr/0"},
@@ -672,6 +676,24 @@ func (e *robustEnv) call(ep, template string, input interface{}) (outcome string
 				for _, fp := range e.followUps {
 					_, _ = doccomposer.New().ApplyPatches(out, []patch.Patch{fp})
 				}
+			}
+
+			// the patch as the LAST of a list that adds keys and services first (one call): what it does to the document
+			// does not reach the values of the patches before it
+			if mutationMode() && len(e.followUps) >= 2 {
+				list := []patch.Patch{e.followUps[0], e.followUps[1], p}
+				before := digestJSON(list)
+
+				_, _ = doccomposer.New().ApplyPatches(d, list)
+
+				if digestJSON(list) != before {
+					return "mutated: ApplyPatches changed the value of a patch of the list it was given"
+				}
+			}
+
+			// a call answers with a document or with an error
+			if err == nil && out == nil {
+				return "mutated: ApplyPatches returned neither a document nor an error"
 			}
 
 			// C12 (mutation mode): a failing patch list yields an error and no (partial) document
